@@ -39,6 +39,7 @@ type Item struct {
 type Snap struct {
 	Items []Item
 	index map[string]int
+	raw   []byte // the slice the final ToBytes returned (retain.go keeps it to look at it again later)
 }
 
 func (s *Snap) add(it Item) {
@@ -276,6 +277,7 @@ func takeSnap(x *ops.Exec, outcomes []string, withCounts bool) *Snap {
 	} else {
 		s.add(Item{Name: "ToBytes", Kind: "outcome", Val: "ok"})
 		s.addPackage("", b)
+		s.raw = b
 	}
 	return s
 }
